@@ -24,6 +24,19 @@ pub proof fn axiom_price_at()
 //@ end
 /// the tick of a sqrt-price (C09 proves: tick_inverse::inv_spec, the unique floor tick)
 pub uninterp spec fn tick_of(p: int) -> int;
+/// C09's inverse theorem, as used by the other properties: tick_of(p) is the floor tick of p (proved in the thorough tier of C09: tick_props::lemma_inverse_correct)
+#[verifier::external_body]
+pub proof fn axiom_tick_of(p: int)
+    requires price_ok(p),
+    ensures tick_ok(tick_of(p)), price_at(tick_of(p)) <= p, tick_of(p) < 443636 ==> p < price_at(tick_of(p) + 1),
+{}
+/// consequence: converting a tick's price back gives the tick
+pub proof fn lemma_tick_of_price(t: int) requires tick_ok(t) ensures tick_of(price_at(t)) == t
+{
+    axiom_price_at(); axiom_tick_of(price_at(t));
+    let u = tick_of(price_at(t));
+    if u < t { assert(price_at(u + 1) <= price_at(t)) by { if u + 1 < t { } } } else if u > t { }
+}
 //@ fn math/tick_math.rs tick_index_from_sqrt_price -> r stub
     requires price_ok(*sqrt_price_x64 as int),
     ensures r as int == tick_of(*sqrt_price_x64 as int), tick_ok(r as int), price_at(r as int) <= *sqrt_price_x64 as int, r < 443636 ==> (*sqrt_price_x64 as int) < price_at(r as int + 1),
